@@ -4,6 +4,7 @@
    ExtrOcamlBasic only; numbers stay Coq's binary N. *)
 From Coq Require Import NArith List Bool String.
 From BM Require Import Base.Outcome Base.Prims Base.Layout Spec.CastSpec Spec.Monitor Model.LangValid Model.StdSlice.
+From BM Require Import Proofs.CastMust.
 From BM.Gen Require Internal Root Checked Must.
 Import ListNotations.
 Open Scope bool_scope.
@@ -17,6 +18,8 @@ Inductive xobs : Type :=
 | XPanicOther              (* any other panic *)
 | XVal (bs : list N)       (* a by-value result: its bytes *)
 | XErrVal (code : N)
+| XSplit (r : split3)      (* the three parts of an align-to split *)
+| XCompiles                (* compile verdict: the instantiation compiles *)
 | XCompileFail             (* a const assertion failed: the instantiation does not compile *)
 | XUB                      (* the model says: undefined behaviour (never observable) *)
 | XBad.
@@ -147,6 +150,7 @@ Definition model (k : case) : xobs :=
   | 10 => x_ref_p (Root.try_from_bytes_mut E B (src_bytes k))
   | 11 => x_ref (Root.from_bytes E B (src_bytes k))
   | 12 => x_ref (Root.from_bytes_mut E B (src_bytes k))
+  | 15 | 16 => XSplit (align_to A B (k_addr k) (k_len k))
   | 13 => x_slice (Root.bytes_of E A (src_ref k))
   | 14 => x_slice (Root.bytes_of_mut E A (src_ref k))
   | 21 => x_slice_c (Checked.try_cast_slice E A C (src_slice k))
@@ -166,6 +170,9 @@ Definition model (k : case) : xobs :=
   | 43 => x_slice (Must.must_cast_slice E A B (src_slice k))
   | 44 => x_slice (Must.must_cast_slice_mut E A B (src_slice k))
   | 45 => x_val (Must.must_cast E A B (k_bytes k))
+  | 141 | 142 => if must_ref_okb A B then XCompiles else XCompileFail
+  | 143 | 144 => if must_slice_okb A B then XCompiles else XCompileFail
+  | 145 => if must_val_okb A B then XCompiles else XCompileFail
   | 51 => x_val_p (Root.try_cast E A B (k_bytes k))
   | 52 => x_val (Root.cast E A B (k_bytes k))
   | 53 => x_val_p (Root.try_pod_read_unaligned E B (src_bytes k))
@@ -209,6 +216,7 @@ Definition monitor_c01 (k : case) (x : xobs) : bool :=
       else if is_bytes_fn f then (n =? 1) && view_okb (k_addr k) (k_len k) B a 1
       else if is_bytes_of_fn f then view_okb (k_addr k) (sz A) u8_ty a n
       else true
+  | XSplit r => tilesb A B (k_addr k) (k_len k) r
   | _ => true
   end.
 
@@ -285,11 +293,42 @@ Definition monitor_c14 (t p : xobs) : bool :=
   | _, _ => false
   end.
 
+Definition slice_infallibleb (A B : ty) : bool :=
+  (al B <=? al A) && ((sz A =? 0) || (negb (sz B =? 0) && (sz A mod sz B =? 0))).
+Definition ref_infallibleb (A B : ty) : bool := (al B <=? al A) && (sz A =? sz B).
+Lemma slice_infallibleb_spec A B : slice_infallibleb A B = true <-> slice_infallible A B.
+Proof.
+  unfold slice_infallibleb, slice_infallible.
+  rewrite andb_true_iff, orb_true_iff, andb_true_iff, negb_true_iff, N.leb_le, !N.eqb_eq, N.eqb_neq. tauto.
+Qed.
+Lemma ref_infallibleb_spec A B : ref_infallibleb A B = true <-> ref_infallible A B.
+Proof. unfold ref_infallibleb, ref_infallible. rewrite andb_true_iff, N.leb_le, N.eqb_eq. tauto. Qed.
+
+(* C14 (compile half): the observed compile verdict must be the infallibility predicate *)
+Definition monitor_c14_verdict (k : case) (x : xobs) : bool :=
+  let A := k_A k in let B := k_B k in
+  let want := match k_fn k with
+              | 141 | 142 => ref_infallibleb A B
+              | 143 | 144 => slice_infallibleb A B
+              | _ => sz A =? sz B
+              end in
+  match x with
+  | XCompiles => want
+  | XCompileFail => negb want
+  | _ => false
+  end.
+
+Definition split_eqb (r q : split3) : bool :=
+  (pre_addr r =? pre_addr q) && (pre_len r =? pre_len q) &&
+  ((mid_len r =? 0) && (mid_len q =? 0) || (mid_addr r =? mid_addr q) && (mid_len r =? mid_len q)) &&
+  ((suf_len r =? 0) && (suf_len q =? 0) || (suf_addr r =? suf_addr q) && (suf_len r =? suf_len q)).
+
 Definition xobs_eqb (x y : xobs) : bool :=
   match x, y with
   | XOk a n, XOk a' n' => (a =? a') && (n =? n')
   | XErr c, XErr c' | XPanicMsg c, XPanicMsg c' | XErrVal c, XErrVal c' => c =? c'
-  | XPanicOther, XPanicOther | XCompileFail, XCompileFail | XBad, XBad => true
+  | XPanicOther, XPanicOther | XCompileFail, XCompileFail | XBad, XBad | XCompiles, XCompiles => true
+  | XSplit r, XSplit q => split_eqb r q
   | XVal v, XVal v' => bytes_eqb v v'
   | _, _ => false
   end.
